@@ -328,7 +328,9 @@ func c19Replication(c *h.Ctx, id string, r *rand.Rand) {
 		})
 	}
 	check := func(when string) bool {
-		if sinceSync > 100 && r.Intn(2) == 0 {
+		heard := false
+		if (sinceSync > 100 && r.Intn(2) == 0) || (sinceSync >= 1 && sinceSync <= 100 && r.Intn(4) == 0) {
+			heard = true
 			// slow snapshot: the reply to the peer's snapshot fetch is produced now but arrives only
 			// after the publisher has logged more operations and the peer has heard about them
 			s.holdPrefixReplies(true)
@@ -355,17 +357,19 @@ func c19Replication(c *h.Ctx, id string, r *rand.Rand) {
 				c.Count("stale_snapshots_delivered", int64(n))
 				c.Distinct("replication|stale-snapshot")
 			}
-			when += " (snapshot reply delayed past later operations)"
+			when += " (a fetch reply delayed past later operations the peer heard about meanwhile)"
+			c.Count("updates_heard_during_a_pending_fetch", 1)
 		}
 		// one catch-up in five loses its first fetch (timeout): the router's own retry must recover
 		lostBefore := s.nLostPfx
-		if r.Intn(5) == 0 {
+		if !heard && r.Intn(5) == 0 {
 			s.mu.Lock()
 			s.losePfx = 1
 			s.mu.Unlock()
 		}
-		// peer catches up
-		if !s.notifyPrefixSync(0) {
+		// peer catches up. When it has already heard of the latest sequence number while its fetch
+		// was pending, nothing tells it again (the sync layer reports a sequence number once)
+		if !heard && !s.notifyPrefixSync(0) {
 			c.Inconclusive(s.bad)
 			return false
 		}
